@@ -87,7 +87,18 @@ class Ctx:
 	# -- outcomes --------------------------------------------------------------------------
 	def violation(self, kind, case, what, **values):
 		"""the property fails on the implementation for this concrete input"""
-		v = dict(kind=kind, case=case, what=what, values={k: _jsonable(x) for k, x in values.items()})
+		what = str(what)
+		if len(what) > 900:
+			what = what[:900] + ' ...[truncated]'
+		vals = {}
+		for k, x in values.items():
+			j = _jsonable(x)
+			try:
+				txt = json.dumps(j, default=str)
+			except Exception:
+				txt = repr(j)
+			vals[k] = j if len(txt) <= 20000 else txt[:20000] + ' ...[truncated]'
+		v = dict(kind=kind, case=case, what=what, values=vals)
 		self.violations.append(v)
 
 	def broke(self, obligation, detail):
